@@ -67,422 +67,429 @@ def run(ck):
                  "the public API (edzed.__all__), DataEdit's documented class methods are dual "
                  "methods", 'docs', 14)
 
-    # ------------------------------------------------------------------ R16.1
-    es = prog.func('block:Event.send')
-    cfg = ck.cfg(es.fid, 'M0')
-    src_param = (es.node.args.posonlyargs + es.node.args.args)[1].arg
-    loops = [n for n in cfg.nodes if n.kind == 'for' and norm(n.ast.iter) == 'self._filters']
-    ck.ob(R1, f"{es.fid} :: filter loop", len(loops) == 1,
-          "plain `for` over self._filters (configured order)" if len(loops) == 1 else
-          "the filters are not applied by one plain `for` loop over self._filters "
-          f"({len(loops)} found)", es, loops[0].ast if loops else es.node)
-    ck.need(R1, loops, "Event.send: filter loop not recognised")
-    fvar = norm(loops[0].ast.target)
-    fcalls = nodes_where(cfg, lambda n: any(isinstance(c.func, ast.Name) and c.func.id == fvar
-                                            for c in node_calls(n)))
-    ck.need(R1, len(fcalls) == 1, "Event.send: exactly one filter call expected")
-    fc = fcalls[0]
-    fcall = [c for c in node_calls(fc) if isinstance(c.func, ast.Name) and c.func.id == fvar][0]
-    rd = ck.rdefs(es.fid, 'M0')
-    okarg = len(fcall.args) == 1 and norm(fcall.args[0]) == 'data' and not fcall.keywords
-    data_defs = rd.defs_at(fc, 'data')
-    rebind = [d for d in data_defs if d.kind != 'entry']
-    rv = norm(fc.ast.targets[0]) if isinstance(fc.ast, ast.Assign) else None
-    okarg = okarg and rv is not None and all(
-        isinstance(d.ast, ast.Assign) and norm(d.ast.value) == rv for d in rebind) and bool(rebind)
-    ck.ob(R1, f"{es.fid} :: loop-carried data", okarg,
-          "each filter receives the current data; a mapping result becomes the data of later "
-          "filters" if okarg else "the filter call does not receive the loop-carried `data`, or "
-          "`data` is never re-bound to a filter's mapping result", es, fc.ast)
-    for d in rebind:
-        ok = cfg.has_guard(d, f'isinstance({rv}, MutableMapping)', True)
-        ck.ob(R1, f"{es.fid} :: {norm1(d.ast)}", ok,
-              "re-binding only for a MutableMapping result" if ok else
-              "data is re-bound for a result that is not known to be a MutableMapping", es, d.ast)
-    rf = [r for r in return_nodes(cfg) if is_const(r.ast.value, False)]
-    rt = [r for r in return_nodes(cfg) if is_const(r.ast.value, True)]
-    okf = bool(rf) and all(cfg.has_guard(r, f'isinstance({rv}, MutableMapping)', False) and
-                           cfg.has_guard(r, rv, False) for r in rf)
-    ck.ob(R1, f"{es.fid} :: veto", okf,
-          "return False exactly for a non-mapping false result (an empty mapping is data, not a "
-          "veto)" if okf else "the veto test is not `not a mapping and falsy` -- truthiness "
-          "tested before the mapping test turns {} into a veto", es, rf[0].ast if rf else es.node)
-    deliveries = nodes_calling(cfg, 'event')
-    srcw = nodes_where(cfg, lambda n: isinstance(n.ast, ast.Assign) and
-                       norm(n.ast.targets[0]) == "data['source']")
+    with ck.section('R16.1'):
+        # ------------------------------------------------------------------ R16.1
+        es = prog.func('block:Event.send')
+        cfg = ck.cfg(es.fid, 'M0')
+        src_param = (es.node.args.posonlyargs + es.node.args.args)[1].arg
+        loops = [n for n in cfg.nodes if n.kind == 'for' and norm(n.ast.iter) == 'self._filters']
+        ck.ob(R1, f"{es.fid} :: filter loop", len(loops) == 1,
+              "plain `for` over self._filters (configured order)" if len(loops) == 1 else
+              "the filters are not applied by one plain `for` loop over self._filters "
+              f"({len(loops)} found)", es, loops[0].ast if loops else es.node)
+        ck.need(R1, loops, "Event.send: filter loop not recognised")
+        fvar = norm(loops[0].ast.target)
+        fcalls = nodes_where(cfg, lambda n: any(isinstance(c.func, ast.Name) and c.func.id == fvar
+                                                for c in node_calls(n)))
+        ck.need(R1, len(fcalls) == 1, "Event.send: exactly one filter call expected")
+        fc = fcalls[0]
+        fcall = [c for c in node_calls(fc) if isinstance(c.func, ast.Name) and c.func.id == fvar][0]
+        rd = ck.rdefs(es.fid, 'M0')
+        okarg = len(fcall.args) == 1 and norm(fcall.args[0]) == 'data' and not fcall.keywords
+        data_defs = rd.defs_at(fc, 'data')
+        rebind = [d for d in data_defs if d.kind != 'entry']
+        rv = norm(fc.ast.targets[0]) if isinstance(fc.ast, ast.Assign) else None
+        okarg = okarg and rv is not None and all(
+            isinstance(d.ast, ast.Assign) and norm(d.ast.value) == rv for d in rebind) and bool(rebind)
+        ck.ob(R1, f"{es.fid} :: loop-carried data", okarg,
+              "each filter receives the current data; a mapping result becomes the data of later "
+              "filters" if okarg else "the filter call does not receive the loop-carried `data`, or "
+              "`data` is never re-bound to a filter's mapping result", es, fc.ast)
+        for d in rebind:
+            ok = cfg.has_guard(d, f'isinstance({rv}, MutableMapping)', True)
+            ck.ob(R1, f"{es.fid} :: {norm1(d.ast)}", ok,
+                  "re-binding only for a MutableMapping result" if ok else
+                  "data is re-bound for a result that is not known to be a MutableMapping", es, d.ast)
+        rf = [r for r in return_nodes(cfg) if is_const(r.ast.value, False)]
+        rt = [r for r in return_nodes(cfg) if is_const(r.ast.value, True)]
+        okf = bool(rf) and all(cfg.has_guard(r, f'isinstance({rv}, MutableMapping)', False) and
+                               cfg.has_guard(r, rv, False) for r in rf)
+        ck.ob(R1, f"{es.fid} :: veto", okf,
+              "return False exactly for a non-mapping false result (an empty mapping is data, not a "
+              "veto)" if okf else "the veto test is not `not a mapping and falsy` -- truthiness "
+              "tested before the mapping test turns {} into a veto", es, rf[0].ast if rf else es.node)
+        deliveries = nodes_calling(cfg, 'event')
+        srcw = nodes_where(cfg, lambda n: isinstance(n.ast, ast.Assign) and
+                           norm(n.ast.targets[0]) == "data['source']")
 
-    def events(n):
-        ev = []
-        if n in srcw:
-            ev.append('S')
-        if n is fc:
-            ev.append('F')
-        if n in deliveries:
-            ev.append('D')
-        if n in rt:
-            ev.append('Rt')
-        if n in rf:
-            ev.append('Rf')
-        if n.kind == 'stmt' and isinstance(n.ast, ast.Return) and n not in rt and n not in rf:
-            ev.append('Rx')
-        return ev
-    ok, wit, st = check_language(cfg, "S F* ( D Rt | Rf )", events, [cfg.exit])
-    ck.product_states += st['product_states']
-    ck.ob(R1, f"{es.fid} :: path language S F* (D Rt | Rf)", ok,
-          "every normal path: source item, filters, then either one delivery and True, or False "
-          "without delivery" if ok else
-          f"a path has the event word {' '.join(wit[1])} (not in S F* (D Rt | Rf))", es, es.node,
-          witness=path_witness(cfg, wit[0]) if wit else None)
-    if deliveries:
-        dc = node_calls(deliveries[0], 'event')[0]
-        okd = [norm(a) for a in dc.args] == ['self._etype'] and len(dc.keywords) == 1 and \
-            dc.keywords[0].arg is None and norm(dc.keywords[0].value) == 'data'
-        ck.ob(R1, f"{es.fid} :: delivery arguments", okd,
-              "dest.event(self._etype, **data) with the last binding of data" if okd else
-              f"delivery is `{norm(dc)}`; the destination must receive the filtered data", es,
-              deliveries[0].ast)
-    keychk = nodes_where(cfg, lambda n: isinstance(n.ast, ast.Raise) and n.kinds == {'N:TypeError'}
-                         and cfg.has_guard(n, f'isinstance({rv}, MutableMapping)', True), kinds=('stmt',))
-    ck.ob(R1, f"{es.fid} :: string keys", bool(keychk),
-          "a mapping with a non-string key raises TypeError" if keychk else
-          "the string-key check of a filter's mapping result is missing", es, es.node)
+        def events(n):
+            ev = []
+            if n in srcw:
+                ev.append('S')
+            if n is fc:
+                ev.append('F')
+            if n in deliveries:
+                ev.append('D')
+            if n in rt:
+                ev.append('Rt')
+            if n in rf:
+                ev.append('Rf')
+            if n.kind == 'stmt' and isinstance(n.ast, ast.Return) and n not in rt and n not in rf:
+                ev.append('Rx')
+            return ev
+        ok, wit, st = check_language(cfg, "S F* ( D Rt | Rf )", events, [cfg.exit])
+        ck.product_states += st['product_states']
+        ck.ob(R1, f"{es.fid} :: path language S F* (D Rt | Rf)", ok,
+              "every normal path: source item, filters, then either one delivery and True, or False "
+              "without delivery" if ok else
+              f"a path has the event word {' '.join(wit[1])} (not in S F* (D Rt | Rf))", es, es.node,
+              witness=path_witness(cfg, wit[0]) if wit else None)
+        if deliveries:
+            dc = node_calls(deliveries[0], 'event')[0]
+            okd = [norm(a) for a in dc.args] == ['self._etype'] and len(dc.keywords) == 1 and \
+                dc.keywords[0].arg is None and norm(dc.keywords[0].value) == 'data'
+            ck.ob(R1, f"{es.fid} :: delivery arguments", okd,
+                  "dest.event(self._etype, **data) with the last binding of data" if okd else
+                  f"delivery is `{norm(dc)}`; the destination must receive the filtered data", es,
+                  deliveries[0].ast)
+        keychk = nodes_where(cfg, lambda n: isinstance(n.ast, ast.Raise) and n.kinds == {'N:TypeError'}
+                             and cfg.has_guard(n, f'isinstance({rv}, MutableMapping)', True), kinds=('stmt',))
+        ck.ob(R1, f"{es.fid} :: string keys", bool(keychk),
+              "a mapping with a non-string key raises TypeError" if keychk else
+              "the string-key check of a filter's mapping result is missing", es, es.node)
 
-    # ------------------------------------------------------------------ R16.2
-    data_tok = _Data()
-    ck.extra['exhaustive_parts'] = ['R16.2: Edge 2x2x3x2 flag settings x 3x2 (previous, value) classes = 144 cases; not_from_undef 4; IfOutput 3; NotIfInitialized 2 -- complete on the truthiness domain']
-    # Edge
-    edge = prog.cls(f"{FIL}:Edge")
-    einit, ecall = edge.methods.get('__init__'), edge.methods.get('__call__')
-    ck.need(R2, einit is not None and ecall is not None, "Edge.__init__/__call__ not found")
-    dparam = ecall.node.args.args[1].arg
-    n_edge = 0
-    for rise, fall, u_rise, u_fall in itertools.product((False, True), (False, True),
-                                                        (None, False, True), (False, True)):
-        env = {'rise': rise, 'fall': fall, 'u_rise': u_rise, 'u_fall': u_fall,
-               'block.UNDEF': UNDEF, 'UNDEF': UNDEF}
-        it = Interp(R2, env, 'truthiness')
-        it.run(einit.node.body)
-        attrs = {k: v for k, v in it.env.items() if k.startswith('self.')}
-        for prev, value in itertools.product((UNDEF, 0, 1), (0, 1)):
-            env2 = dict(attrs)
-            env2.update({f"{dparam}['value']": value, f"{dparam}['previous']": prev,
-                         'block.UNDEF': UNDEF, 'UNDEF': UNDEF, dparam: data_tok})
-            got = Interp(R2, env2, 'truthiness').run(ecall.node.body)
-            ck.abstract_cases += 1
-            n_edge += 1
-            if prev is UNDEF:
-                want = (rise if u_rise is None else u_rise) if value else u_fall
-            else:
-                want = (rise and not prev and bool(value)) or (fall and bool(prev) and not value)
-            pv = 'UNDEF' if prev is UNDEF else ('truthy' if prev else 'falsy')
-            ck.ob(R2, f"{FIL}:Edge rise={rise} fall={fall} u_rise={u_rise} u_fall={u_fall} :: "
-                  f"{pv}->{'truthy' if value else 'falsy'}", bool(got) == bool(want),
-                  f"documented: {'pass' if want else 'drop'}; code: {'pass' if got else 'drop'}",
-                  ecall, ecall.node)
-    # not_from_undef
-    nfu = prog.func(f"{FIL}:not_from_undef")
-    dp = nfu.node.args.args[0].arg
-    for prev in (MISSING, UNDEF, 0, 1):
-        env = {f"{dp}['previous']": prev, 'block.UNDEF': UNDEF, 'UNDEF': UNDEF, dp: data_tok}
-        got = Interp(R2, env, 'truthiness').run(nfu.node.body)
-        ck.abstract_cases += 1
-        want = prev is not MISSING and prev is not UNDEF
-        ck.ob(R2, f"{nfu.fid} :: previous={prev!r}", bool(got) == want,
-              f"documented: {'pass' if want else 'drop'}; code: {'pass' if got else 'drop'}",
-              nfu, nfu.node)
-    # IfOutput
-    ifo = prog.cls(f"{FIL}:IfOutput")
-    fi = ifo.methods.get('__call__')
-    ck.need(R2, fi is not None, "IfOutput.__call__ not found")
-    dp = fi.node.args.args[1].arg
-    for out in (UNDEF, 0, 1):
-        env = {'self._ctrl_blk.output': out, dp: data_tok, 'block.UNDEF': UNDEF}
-        got = Interp(R2, env, 'truthiness').run(fi.node.body)
-        ck.abstract_cases += 1
-        want = bool(out)
-        ok = (got is data_tok or got is True) if want else not got
-        ck.ob(R2, f"{fi.fid} :: control output {out!r}", ok,
-              f"documented: {'pass the data' if want else 'drop'}; code returns {got!r}", fi, fi.node)
-    # the not-initialised filter (documented name NotIfInitialized)
-    nii = None
-    for nm in ('NotIfInitialized', 'IfNotIitialized', 'IfNotInitialized'):
-        if f"{FIL}:{nm}" in prog.classes:
-            nii = prog.classes[f"{FIL}:{nm}"]
-            break
-    ck.need(R2, nii is not None, "the not-initialised filter class was not found in filters.py")
-    fi = prog.resolve_method(nii, '__call__')
-    ck.need(R2, fi is not None, f"{nii.qual}.__call__ not found")
-    dp = fi.node.args.args[1].arg
-    for initialized in (False, True):
-        env = {'self._ctrl_blk.is_initialized()': initialized, dp: data_tok}
-        got = Interp(R2, env, 'truthiness').run(fi.node.body)
-        ck.abstract_cases += 1
-        want = not initialized
-        ok = (got is data_tok or got is True) if want else not got
-        ck.ob(R2, f"{fi.fid} :: control initialized={initialized}", ok,
-              f"documented: {'pass the data' if want else 'drop'}; code returns {got!r}", fi, fi.node)
-
-    # ------------------------------------------------------------------ R16.3
-    delta = prog.cls(f"{FIL}:Delta")
-    dinit, dcall = delta.methods.get('__init__'), delta.methods.get('__call__')
-    ck.need(R3, dinit is not None and dcall is not None, "Delta.__init__/__call__ not found")
-    g = ck.cfg(dcall.fid, 'M0')
-    dp = dcall.node.args.args[1].arg
-    writes = nodes_writing_attr(g, '_last')
-    rets = return_nodes(g)
-    acc = [r for r in rets if is_const(r.ast.value, True)]
-    rej = [r for r in rets if is_const(r.ast.value, False)]
-    ck.ob(R3, f"{dcall.fid} :: verdicts", bool(acc) and bool(rej) and len(acc) + len(rej) == len(rets),
-          f"{len(acc)} accepting and {len(rej)} rejecting return(s)", dcall, dcall.node)
-    rdd = ck.rdefs(dcall.fid, 'M0')
-    okw = bool(writes)
-    for w in writes:
-        v = w.ast.value if isinstance(w.ast, ast.Assign) else None
-        good = v is not None and (norm(v) == f"{dp}['value']" or (
-            isinstance(v, ast.Name) and all(not isinstance(x, str) and norm(x) == f"{dp}['value']"
-                                            for x in rdd.value_exprs(w, v.id))))
-        okw = okw and good
-    ck.ob(R3, f"{dcall.fid} :: stored value", okw,
-          "_last receives the event's `value` item" if okw else
-          "_last is not assigned the event's value", dcall, writes[0].ast if writes else dcall.node)
-    for r in acc:
-        p = must_pass(g, g.entry, writes, [r])
-        ck.ob(R3, f"{dcall.fid} :: accepting path line {r.lineno}", p is None and bool(writes),
-              "every accepting path updates _last" if p is None and writes else
-              "an accepting path does not record the passed value", dcall, r.ast,
-              witness=path_witness(g, p))
-    for r in rej:
-        bad = [w for w in writes if r.id in g.reachable_from(w)]
-        ck.ob(R3, f"{dcall.fid} :: rejecting path line {r.lineno}", not bad,
-              "no rejecting path touches _last" if not bad else
-              "a rejected value is remembered as the last value (drift)", dcall, r.ast)
-    # ---- the filter decided by an abstract run: last in {UNDEF, 10}, value around it, delta = 1
-    from sa.minieval import MiniEval
-    run_bad = []
-    n_run = 0
-    UND = 'UNDEF-TOKEN'
-    for last_ in (UND, 10):
-        for val_ in (10, 10.5, 11, 9, 8.5, 12):
-            env = {'self._last': last_, 'self._delta': 1, dp: {'value': val_}, 'block.UNDEF': UND, 'UNDEF': UND}
-            try:
-                me = MiniEval(R3, env)
-                out = me.run(dcall.node.body)
-            except Exception as err:
-                run_bad = None
-                ck.note(f"R16.3 abstract run not applicable: {err}")
-                break
-            n_run += 1
-            ck.abstract_cases += 1
-            want = last_ is UND or abs(last_ - val_) >= 1
-            new_last = me.env.get('self._last')
-            if out[0] != 'return' or bool(out[1]) != want or new_last != (val_ if want else last_):
-                run_bad.append(f"last={last_}, value={val_}: returns {out}, _last becomes {new_last}; documented: "
-                               f"{'pass and remember the value' if want else 'reject and keep the last value'}")
-        if run_bad is None:
-            break
-    run_ok = run_bad is not None and not run_bad
-    if run_bad is not None:
-        ck.ob(R3, f"{dcall.fid} :: abstract run", run_ok,
-              f"evaluated on {n_run} (last, value) pairs with delta = 1: passes iff there is no last "
-              f"value or |last - value| >= delta; only a passed value is remembered" if run_ok
-              else "; ".join(run_bad[:3]), dcall, dcall.node)
-    # comparator
-    cmp_ok = False
-    undef_ok = False
-    for n in own_nodes(dcall.node):
-        if isinstance(n, ast.Compare) and len(n.ops) == 1:
-            l, r = n.left, n.comparators[0]
-            if isinstance(n.ops[0], (ast.GtE, ast.LtE)) and '_delta' in norm(n):
-                big, small = (l, r) if isinstance(n.ops[0], ast.GtE) else (r, l)
-                if norm(small) == 'self._delta' and isinstance(big, ast.Call) and \
-                        call_name(big) == 'abs' and isinstance(big.args[0], ast.BinOp) and \
-                        isinstance(big.args[0].op, ast.Sub) and \
-                        {norm(big.args[0].left), norm(big.args[0].right)} in (
-                            {'self._last', 'value'}, {'self._last', f"{dp}['value']"}):
-                    cmp_ok = True
-            if isinstance(n.ops[0], ast.Is) and norm(l) == 'self._last' and 'UNDEF' in norm(r):
-                undef_ok = True
-    ck.ob(R3, f"{dcall.fid} :: comparator", cmp_ok or run_ok,
-          "abs(last - value) >= delta ('differs by at least delta')" if cmp_ok else
-          "the pass condition is not abs(self._last - value) >= self._delta", dcall, dcall.node)
-    acc_guard = all(any('UNDEF' in t for t, p in g.guard_texts(r)) for r in acc)
-    ck.ob(R3, f"{dcall.fid} :: first value", (undef_ok and acc_guard) or run_ok,
-          "the first value (no last value yet) always passes" if undef_ok and acc_guard else
-          "the `_last is UNDEF` case is not part of the pass condition", dcall, dcall.node)
-    own(ck, R3, '_last', {dinit.fid: 'constructor (UNDEF)', dcall.fid: 'the filter itself'})
-    gi = ck.cfg(dinit.fid, 'M0')
-    iw = nodes_writing_attr(gi, '_last')
-    ck.ob(R3, f"{dinit.fid} :: initial", bool(iw) and all('UNDEF' in norm(w.ast.value) for w in iw),
-          "_last starts as UNDEF", dinit, iw[0].ast if iw else dinit.node)
-
-    # ------------------------------------------------------------------ R16.4
-    de = prog.cls(f"{FIL}:DataEdit")
-    duals = [m for m in de.methods.values() if any('_dualmethod' in d for d in m.decorators)]
-    ck.need(R4, len(duals) >= 8, f"only {len(duals)} dual methods found in DataEdit")
-    for m in sorted(duals, key=lambda m: m.name):
-        g = ck.cfg(m.fid, 'M0')
-        apps = nodes_where(g, lambda n: any(call_name(c) == 'append' and
-                                            recv(c) == 'self._editlist' for c in node_calls(n)))
-        rets = return_nodes(g)
-        ok = len(apps) == 1 and must_pass(g, g.entry, apps, [g.exit]) is None and bool(rets) and \
-            all(norm(r.ast.value) == 'self' for r in rets) and \
-            must_pass(g, g.entry, rets, [g.exit]) is None
-        ck.ob(R4, m.fid, ok, "appends exactly one edit and returns self" if ok else
-              f"{m.name}: {len(apps)} append(s); returns {[norm(r.ast.value) for r in rets]}",
-              m, m.node)
-    call = de.methods.get('__call__')
-    ck.need(R4, call is not None, "DataEdit.__call__ not found")
-    g = ck.cfg(call.fid, 'M0')
-    dp = call.node.args.args[1].arg
-    loops = [n for n in g.nodes if n.kind == 'for' and norm(n.ast.iter) == 'self._editlist']
-    ok = len(loops) == 1
-    if ok:
-        fv = norm(loops[0].ast.target)
-        step = nodes_where(g, lambda n: isinstance(n.ast, ast.Assign) and
-                           norm(n.ast.targets[0]) == dp and norm(n.ast.value) == f"{fv}({dp})")
-        brk = nodes_where(g, lambda n: isinstance(n.ast, ast.Break) and
-                          g.has_guard(n, f'isinstance({dp}, MutableMapping)', False), kinds=('stmt',))
-        rets = return_nodes(g)
-        ok = len(step) == 1 and bool(brk) and all(norm(r.ast.value) == dp for r in rets) and bool(rets)
-        # no further edit after a non-mapping result: the test follows the step in the body
-        ok = ok and all(g.dominates(step[0], b) for b in brk)
-    if not ok:
-        # layout-independent decision: run __call__ on edit lists of recording callables
-        from sa.minieval import MiniEval
-        good = True
-        try:
-            for reject_at in (None, 0, 1, 2):
-                trace = []
-
-                def mk(i, trace=trace, reject_at=reject_at):
-                    def edit(d):
-                        trace.append((i, dict(d) if isinstance(d, dict) else d))
-                        if reject_at == i:
-                            return None
-                        return {**d, f'k{i}': i}
-                    return edit
-                env = {'self._editlist': [mk(0), mk(1), mk(2)], dp: {'src': 1}}
-                out = MiniEval(R4, env).run(call.node.body)
+    with ck.section('R16.2'):
+        # ------------------------------------------------------------------ R16.2
+        data_tok = _Data()
+        ck.extra['exhaustive_parts'] = ['R16.2: Edge 2x2x3x2 flag settings x 3x2 (previous, value) classes = 144 cases; not_from_undef 4; IfOutput 3; NotIfInitialized 2 -- complete on the truthiness domain']
+        # Edge
+        edge = prog.cls(f"{FIL}:Edge")
+        einit, ecall = edge.methods.get('__init__'), edge.methods.get('__call__')
+        ck.need(R2, einit is not None and ecall is not None, "Edge.__init__/__call__ not found")
+        dparam = ecall.node.args.args[1].arg
+        n_edge = 0
+        for rise, fall, u_rise, u_fall in itertools.product((False, True), (False, True),
+                                                            (None, False, True), (False, True)):
+            env = {'rise': rise, 'fall': fall, 'u_rise': u_rise, 'u_fall': u_fall,
+                   'block.UNDEF': UNDEF, 'UNDEF': UNDEF}
+            it = Interp(R2, env, 'truthiness')
+            it.run(einit.node.body)
+            attrs = {k: v for k, v in it.env.items() if k.startswith('self.')}
+            for prev, value in itertools.product((UNDEF, 0, 1), (0, 1)):
+                env2 = dict(attrs)
+                env2.update({f"{dparam}['value']": value, f"{dparam}['previous']": prev,
+                             'block.UNDEF': UNDEF, 'UNDEF': UNDEF, dparam: data_tok})
+                got = Interp(R2, env2, 'truthiness').run(ecall.node.body)
                 ck.abstract_cases += 1
-                if reject_at is None:
-                    want_out = {'src': 1, 'k0': 0, 'k1': 1, 'k2': 2}
-                    want_calls = [0, 1, 2]
+                n_edge += 1
+                if prev is UNDEF:
+                    want = (rise if u_rise is None else u_rise) if value else u_fall
                 else:
-                    want_out = None
-                    want_calls = list(range(reject_at + 1))
-                chained = all(tr_[1] == {'src': 1, **{f'k{j}': j for j in range(tr_[0])}} for tr_ in trace)
-                good = good and out == ('return', want_out) and [t_[0] for t_ in trace] == want_calls and chained
-        except Exception:
-            good = False
-        ok = good
-    ck.ob(R4, call.fid, ok, "data = edit(data) for each edit in order; stops at the first "
-          "non-mapping result and returns it" if ok else
-          "DataEdit.__call__ does not apply the edits in order to the loop-carried data or does "
-          "not stop at a non-mapping result", call, call.node)
-    modify = de.methods.get('modify')
-    ck.need(R4, modify is not None, "DataEdit.modify not found")
-    inner = [f for f in prog.funcs.values() if f.parent is modify]
-    ck.need(R4, len(inner) == 1, "DataEdit.modify: inner edit function not recognised")
-    gm = ck.cfg(inner[0].fid, 'M0')
-    rj = [r for r in return_nodes(gm) if r.ast.value is None or is_const(r.ast.value, None)]
-    okr = bool(rj) and all(gm.has_guard(r, 'replacement is self.REJECT', True) for r in rj)
-    dels = nodes_where(gm, lambda n: isinstance(n.ast, ast.Delete), kinds=('stmt',))
-    okd = bool(dels) and all(gm.has_guard(d, 'replacement is self.DELETE', True) and
-                             gm.has_guard(d, 'replacement is self.REJECT', False) for d in dels)
-    sets = nodes_where(gm, lambda n: isinstance(n.ast, ast.Assign) and
-                       isinstance(n.ast.targets[0], ast.Subscript) and norm(n.ast.value) == 'replacement')
-    oks = bool(sets) and all(gm.has_guard(s, 'replacement is self.DELETE', False) and
-                             gm.has_guard(s, 'replacement is self.REJECT', False) for s in sets)
-    ck.ob(R4, f"{inner[0].fid} :: REJECT/DELETE", okr and okd and oks,
-          "returns None exactly for REJECT, deletes exactly for DELETE, otherwise stores the "
-          "replacement" if okr and okd and oks else
-          f"modify's edit: reject ok={okr}, delete ok={okd}, store ok={oks}", inner[0], inner[0].node)
-    dv, rv_ = prog.class_value(de, 'DELETE'), prog.class_value(de, 'REJECT')
-    ok = dv is not None and rv_ is not None and norm(dv) == 'object()' and norm(rv_) == 'object()'
-    ck.ob(R4, f"{de.qual} :: DELETE/REJECT", ok, "two distinct object() sentinels" if ok else
-          "DELETE and REJECT are not two distinct object() sentinels", None,
-          f"{mod.path}:{de.node.lineno}")
-    dm = prog.cls(f"{FIL}:_dualmethod")
-    get = dm.methods.get('__get__')
-    ck.need(R4, get is not None, "_dualmethod.__get__ not found")
-    gg = ck.cfg(get.fid, 'M0')
-    inst, owner = get.node.args.args[1].arg, get.node.args.args[2].arg
-    fresh = nodes_where(gg, lambda n: isinstance(n.ast, ast.Assign) and norm(n.ast.targets[0]) == inst
-                        and norm(n.ast.value) == f"{owner}()")
-    ok = len(fresh) == 1 and gg.has_guard(fresh[0], f'{inst} is None', True)
-    ck.ob(R4, get.fid, ok, "a fresh instance is created only for access on the class" if ok else
-          "_dualmethod.__get__ does not create a fresh instance exactly when accessed on the class "
-          "(edit lists would be shared between filters)", get, get.node)
-    ao = de.methods.get('add_output')
-    ck.need(R4, ao is not None, "DataEdit.add_output not found")
-    ga = ck.cfg(ao.fid, 'M0')
-    ns = nodes_where(ga, lambda n: isinstance(n.ast, ast.Assign) and isinstance(n.ast.value, ast.Call)
-                     and norm(n.ast.value.func) == 'types.SimpleNamespace')
-    ok = len(ns) == 1 and not any(isinstance(t, ast.Attribute) for t in ns[0].ast.targets)
-    ck.ob(R4, f"{ao.fid} :: fresh namespace", ok,
-          "the source is stored in a fresh local namespace per call" if ok else
-          "add_output stores its source where a later add_output call overwrites it", ao, ao.node)
-    einit = de.methods.get('__init__')
-    own(ck, R4, '_editlist', {einit.fid: 'constructor'} if einit else {})
+                    want = (rise and not prev and bool(value)) or (fall and bool(prev) and not value)
+                pv = 'UNDEF' if prev is UNDEF else ('truthy' if prev else 'falsy')
+                ck.ob(R2, f"{FIL}:Edge rise={rise} fall={fall} u_rise={u_rise} u_fall={u_fall} :: "
+                      f"{pv}->{'truthy' if value else 'falsy'}", bool(got) == bool(want),
+                      f"documented: {'pass' if want else 'drop'}; code: {'pass' if got else 'drop'}",
+                      ecall, ecall.node)
+        # not_from_undef
+        nfu = prog.func(f"{FIL}:not_from_undef")
+        dp = nfu.node.args.args[0].arg
+        for prev in (MISSING, UNDEF, 0, 1):
+            env = {f"{dp}['previous']": prev, 'block.UNDEF': UNDEF, 'UNDEF': UNDEF, dp: data_tok}
+            got = Interp(R2, env, 'truthiness').run(nfu.node.body)
+            ck.abstract_cases += 1
+            want = prev is not MISSING and prev is not UNDEF
+            ck.ob(R2, f"{nfu.fid} :: previous={prev!r}", bool(got) == want,
+                  f"documented: {'pass' if want else 'drop'}; code: {'pass' if got else 'drop'}",
+                  nfu, nfu.node)
+        # IfOutput
+        ifo = prog.cls(f"{FIL}:IfOutput")
+        fi = ifo.methods.get('__call__')
+        ck.need(R2, fi is not None, "IfOutput.__call__ not found")
+        dp = fi.node.args.args[1].arg
+        for out in (UNDEF, 0, 1):
+            env = {'self._ctrl_blk.output': out, dp: data_tok, 'block.UNDEF': UNDEF}
+            got = Interp(R2, env, 'truthiness').run(fi.node.body)
+            ck.abstract_cases += 1
+            want = bool(out)
+            ok = (got is data_tok or got is True) if want else not got
+            ck.ob(R2, f"{fi.fid} :: control output {out!r}", ok,
+                  f"documented: {'pass the data' if want else 'drop'}; code returns {got!r}", fi, fi.node)
+        # the not-initialised filter (documented name NotIfInitialized)
+        nii = None
+        for nm in ('NotIfInitialized', 'IfNotIitialized', 'IfNotInitialized'):
+            if f"{FIL}:{nm}" in prog.classes:
+                nii = prog.classes[f"{FIL}:{nm}"]
+                break
+        ck.need(R2, nii is not None, "the not-initialised filter class was not found in filters.py")
+        fi = prog.resolve_method(nii, '__call__')
+        ck.need(R2, fi is not None, f"{nii.qual}.__call__ not found")
+        dp = fi.node.args.args[1].arg
+        for initialized in (False, True):
+            env = {'self._ctrl_blk.is_initialized()': initialized, dp: data_tok}
+            got = Interp(R2, env, 'truthiness').run(fi.node.body)
+            ck.abstract_cases += 1
+            want = not initialized
+            ok = (got is data_tok or got is True) if want else not got
+            ck.ob(R2, f"{fi.fid} :: control initialized={initialized}", ok,
+                  f"documented: {'pass the data' if want else 'drop'}; code returns {got!r}", fi, fi.node)
 
-    # ------------------------------------------------------------------ R16.4c
-    for mname, last in (('add', 'kwargs'), ('setdefault', 'data')):
-        m = de.methods.get(mname)
-        ck.need(R4c, m is not None, f"DataEdit.{mname} not found")
-        kwname = m.node.args.kwarg.arg if m.node.args.kwarg else None
-        verdict = None
-        for n in own_nodes(m.node):
-            if isinstance(n, ast.Lambda) and isinstance(n.body, ast.Dict):
-                spreads = [norm(v) for k, v in zip(n.body.keys, n.body.values) if k is None]
-                lp = n.args.args[0].arg
-                if len(spreads) == 2 and set(spreads) == {lp, kwname} and len(n.body.keys) == 2:
-                    winner = spreads[-1]
-                    verdict = (winner == kwname) if last == 'kwargs' else (winner == lp)
-        if verdict is None:
-            # other idioms (dict(); update()) are outside the recognised spread idiom: the
-            # precedence is then decided by R16.4d alone (abstract evaluation of the edit)
-            ck.ob(R4c, m.fid, True, f"{mname}: not a two-spread dict display; the precedence on a "
-                  "key clash is decided by R16.4d (key-equality domain)", m, m.node)
-            continue
-        ck.ob(R4c, m.fid, verdict,
-              f"{mname}: the {'new items' if last == 'kwargs' else 'existing data'} win on a key "
-              f"clash" if verdict else
-              f"{mname}: precedence on a key clash is reversed (the spread order gives priority to "
-              f"the {'data' if last == 'kwargs' else 'new items'})", m, m.node)
+    with ck.section('R16.3'):
+        # ------------------------------------------------------------------ R16.3
+        delta = prog.cls(f"{FIL}:Delta")
+        dinit, dcall = delta.methods.get('__init__'), delta.methods.get('__call__')
+        ck.need(R3, dinit is not None and dcall is not None, "Delta.__init__/__call__ not found")
+        g = ck.cfg(dcall.fid, 'M0')
+        dp = dcall.node.args.args[1].arg
+        writes = nodes_writing_attr(g, '_last')
+        rets = return_nodes(g)
+        acc = [r for r in rets if is_const(r.ast.value, True)]
+        rej = [r for r in rets if is_const(r.ast.value, False)]
+        ck.ob(R3, f"{dcall.fid} :: verdicts", bool(acc) and bool(rej) and len(acc) + len(rej) == len(rets),
+              f"{len(acc)} accepting and {len(rej)} rejecting return(s)", dcall, dcall.node)
+        rdd = ck.rdefs(dcall.fid, 'M0')
+        okw = bool(writes)
+        for w in writes:
+            v = w.ast.value if isinstance(w.ast, ast.Assign) else None
+            good = v is not None and (norm(v) == f"{dp}['value']" or (
+                isinstance(v, ast.Name) and all(not isinstance(x, str) and norm(x) == f"{dp}['value']"
+                                                for x in rdd.value_exprs(w, v.id))))
+            okw = okw and good
+        ck.ob(R3, f"{dcall.fid} :: stored value", okw,
+              "_last receives the event's `value` item" if okw else
+              "_last is not assigned the event's value", dcall, writes[0].ast if writes else dcall.node)
+        for r in acc:
+            p = must_pass(g, g.entry, writes, [r])
+            ck.ob(R3, f"{dcall.fid} :: accepting path line {r.lineno}", p is None and bool(writes),
+                  "every accepting path updates _last" if p is None and writes else
+                  "an accepting path does not record the passed value", dcall, r.ast,
+                  witness=path_witness(g, p))
+        for r in rej:
+            bad = [w for w in writes if r.id in g.reachable_from(w)]
+            ck.ob(R3, f"{dcall.fid} :: rejecting path line {r.lineno}", not bad,
+                  "no rejecting path touches _last" if not bad else
+                  "a rejected value is remembered as the last value (drift)", dcall, r.ast)
+        # ---- the filter decided by an abstract run: last in {UNDEF, 10}, value around it, delta = 1
+        from sa.minieval import MiniEval
+        run_bad = []
+        n_run = 0
+        UND = 'UNDEF-TOKEN'
+        for last_ in (UND, 10):
+            for val_ in (10, 10.5, 11, 9, 8.5, 12):
+                env = {'self._last': last_, 'self._delta': 1, dp: {'value': val_}, 'block.UNDEF': UND, 'UNDEF': UND}
+                try:
+                    me = MiniEval(R3, env)
+                    out = me.run(dcall.node.body)
+                except Exception as err:
+                    run_bad = None
+                    ck.note(f"R16.3 abstract run not applicable: {err}")
+                    break
+                n_run += 1
+                ck.abstract_cases += 1
+                want = last_ is UND or abs(last_ - val_) >= 1
+                new_last = me.env.get('self._last')
+                if out[0] != 'return' or bool(out[1]) != want or new_last != (val_ if want else last_):
+                    run_bad.append(f"last={last_}, value={val_}: returns {out}, _last becomes {new_last}; documented: "
+                                   f"{'pass and remember the value' if want else 'reject and keep the last value'}")
+            if run_bad is None:
+                break
+        run_ok = run_bad is not None and not run_bad
+        if run_bad is not None:
+            ck.ob(R3, f"{dcall.fid} :: abstract run", run_ok,
+                  f"evaluated on {n_run} (last, value) pairs with delta = 1: passes iff there is no last "
+                  f"value or |last - value| >= delta; only a passed value is remembered" if run_ok
+                  else "; ".join(run_bad[:3]), dcall, dcall.node)
+        # comparator
+        cmp_ok = False
+        undef_ok = False
+        for n in own_nodes(dcall.node):
+            if isinstance(n, ast.Compare) and len(n.ops) == 1:
+                l, r = n.left, n.comparators[0]
+                if isinstance(n.ops[0], (ast.GtE, ast.LtE)) and '_delta' in norm(n):
+                    big, small = (l, r) if isinstance(n.ops[0], ast.GtE) else (r, l)
+                    if norm(small) == 'self._delta' and isinstance(big, ast.Call) and \
+                            call_name(big) == 'abs' and isinstance(big.args[0], ast.BinOp) and \
+                            isinstance(big.args[0].op, ast.Sub) and \
+                            {norm(big.args[0].left), norm(big.args[0].right)} in (
+                                {'self._last', 'value'}, {'self._last', f"{dp}['value']"}):
+                        cmp_ok = True
+                if isinstance(n.ops[0], ast.Is) and norm(l) == 'self._last' and 'UNDEF' in norm(r):
+                    undef_ok = True
+        ck.ob(R3, f"{dcall.fid} :: comparator", cmp_ok or run_ok,
+              "abs(last - value) >= delta ('differs by at least delta')" if cmp_ok else
+              "the pass condition is not abs(self._last - value) >= self._delta", dcall, dcall.node)
+        acc_guard = all(any('UNDEF' in t for t, p in g.guard_texts(r)) for r in acc)
+        ck.ob(R3, f"{dcall.fid} :: first value", (undef_ok and acc_guard) or run_ok,
+              "the first value (no last value yet) always passes" if undef_ok and acc_guard else
+              "the `_last is UNDEF` case is not part of the pass condition", dcall, dcall.node)
+        own(ck, R3, '_last', {dinit.fid: 'constructor (UNDEF)', dcall.fid: 'the filter itself'})
+        gi = ck.cfg(dinit.fid, 'M0')
+        iw = nodes_writing_attr(gi, '_last')
+        ck.ob(R3, f"{dinit.fid} :: initial", bool(iw) and all('UNDEF' in norm(w.ast.value) for w in iw),
+              "_last starts as UNDEF", dinit, iw[0].ast if iw else dinit.node)
 
-    # ------------------------------------------------------------------ R16.4d
-    _dataedit_semantics(ck, de)
+    with ck.section('R16.4'):
+        # ------------------------------------------------------------------ R16.4
+        de = prog.cls(f"{FIL}:DataEdit")
+        duals = [m for m in de.methods.values() if any('_dualmethod' in d for d in m.decorators)]
+        ck.need(R4, len(duals) >= 8, f"only {len(duals)} dual methods found in DataEdit")
+        for m in sorted(duals, key=lambda m: m.name):
+            g = ck.cfg(m.fid, 'M0')
+            apps = nodes_where(g, lambda n: any(call_name(c) == 'append' and
+                                                recv(c) == 'self._editlist' for c in node_calls(n)))
+            rets = return_nodes(g)
+            ok = len(apps) == 1 and must_pass(g, g.entry, apps, [g.exit]) is None and bool(rets) and \
+                all(norm(r.ast.value) == 'self' for r in rets) and \
+                must_pass(g, g.entry, rets, [g.exit]) is None
+            ck.ob(R4, m.fid, ok, "appends exactly one edit and returns self" if ok else
+                  f"{m.name}: {len(apps)} append(s); returns {[norm(r.ast.value) for r in rets]}",
+                  m, m.node)
+        call = de.methods.get('__call__')
+        ck.need(R4, call is not None, "DataEdit.__call__ not found")
+        g = ck.cfg(call.fid, 'M0')
+        dp = call.node.args.args[1].arg
+        loops = [n for n in g.nodes if n.kind == 'for' and norm(n.ast.iter) == 'self._editlist']
+        ok = len(loops) == 1
+        if ok:
+            fv = norm(loops[0].ast.target)
+            step = nodes_where(g, lambda n: isinstance(n.ast, ast.Assign) and
+                               norm(n.ast.targets[0]) == dp and norm(n.ast.value) == f"{fv}({dp})")
+            brk = nodes_where(g, lambda n: isinstance(n.ast, ast.Break) and
+                              g.has_guard(n, f'isinstance({dp}, MutableMapping)', False), kinds=('stmt',))
+            rets = return_nodes(g)
+            ok = len(step) == 1 and bool(brk) and all(norm(r.ast.value) == dp for r in rets) and bool(rets)
+            # no further edit after a non-mapping result: the test follows the step in the body
+            ok = ok and all(g.dominates(step[0], b) for b in brk)
+        if not ok:
+            # layout-independent decision: run __call__ on edit lists of recording callables
+            from sa.minieval import MiniEval
+            good = True
+            try:
+                for reject_at in (None, 0, 1, 2):
+                    trace = []
 
-    # ------------------------------------------------------------------ R16.5
-    docs = directives(ck.repo, 'filters.rst')
-    ck.need(R5, docs, "docs/filters.rst not found or empty")
-    exported = _public_names(prog)
-    for d in docs:
-        where = f"{d['file']}:{d['line']}"
-        if d['owner'] is None:
-            ok = d['name'] in exported and (f"{FIL}:{d['name']}" in prog.classes or
-                                            f"{FIL}:{d['name']}" in prog.funcs or
-                                            prog.lookup(mod, d['name']) is not None)
-            ck.ob(R5, f"docs/filters.rst :: {d['kind']} {d['name']}", ok,
-                  f"edzed.{d['name']} exists and is exported" if ok else
-                  f"the documented filter `edzed.{d['name']}` does not exist in the public API "
-                  f"(blocklib/filters.py exports {sorted(_all_of(prog, mod))})", None, where)
-        else:
-            ci = prog.classes.get(f"{FIL}:{d['owner']}")
-            if ci is None:
-                ck.ob(R5, f"docs/filters.rst :: {d['owner']}.{d['name']}", False,
-                      f"owner class {d['owner']} not found", None, where)
+                    def mk(i, trace=trace, reject_at=reject_at):
+                        def edit(d):
+                            trace.append((i, dict(d) if isinstance(d, dict) else d))
+                            if reject_at == i:
+                                return None
+                            return {**d, f'k{i}': i}
+                        return edit
+                    env = {'self._editlist': [mk(0), mk(1), mk(2)], dp: {'src': 1}}
+                    out = MiniEval(R4, env).run(call.node.body)
+                    ck.abstract_cases += 1
+                    if reject_at is None:
+                        want_out = {'src': 1, 'k0': 0, 'k1': 1, 'k2': 2}
+                        want_calls = [0, 1, 2]
+                    else:
+                        want_out = None
+                        want_calls = list(range(reject_at + 1))
+                    chained = all(tr_[1] == {'src': 1, **{f'k{j}': j for j in range(tr_[0])}} for tr_ in trace)
+                    good = good and out == ('return', want_out) and [t_[0] for t_ in trace] == want_calls and chained
+            except Exception:
+                good = False
+            ok = good
+        ck.ob(R4, call.fid, ok, "data = edit(data) for each edit in order; stops at the first "
+              "non-mapping result and returns it" if ok else
+              "DataEdit.__call__ does not apply the edits in order to the loop-carried data or does "
+              "not stop at a non-mapping result", call, call.node)
+        modify = de.methods.get('modify')
+        ck.need(R4, modify is not None, "DataEdit.modify not found")
+        inner = [f for f in prog.funcs.values() if f.parent is modify]
+        ck.need(R4, len(inner) == 1, "DataEdit.modify: inner edit function not recognised")
+        gm = ck.cfg(inner[0].fid, 'M0')
+        rj = [r for r in return_nodes(gm) if r.ast.value is None or is_const(r.ast.value, None)]
+        okr = bool(rj) and all(gm.has_guard(r, 'replacement is self.REJECT', True) for r in rj)
+        dels = nodes_where(gm, lambda n: isinstance(n.ast, ast.Delete), kinds=('stmt',))
+        okd = bool(dels) and all(gm.has_guard(d, 'replacement is self.DELETE', True) and
+                                 gm.has_guard(d, 'replacement is self.REJECT', False) for d in dels)
+        sets = nodes_where(gm, lambda n: isinstance(n.ast, ast.Assign) and
+                           isinstance(n.ast.targets[0], ast.Subscript) and norm(n.ast.value) == 'replacement')
+        oks = bool(sets) and all(gm.has_guard(s, 'replacement is self.DELETE', False) and
+                                 gm.has_guard(s, 'replacement is self.REJECT', False) for s in sets)
+        ck.ob(R4, f"{inner[0].fid} :: REJECT/DELETE", okr and okd and oks,
+              "returns None exactly for REJECT, deletes exactly for DELETE, otherwise stores the "
+              "replacement" if okr and okd and oks else
+              f"modify's edit: reject ok={okr}, delete ok={okd}, store ok={oks}", inner[0], inner[0].node)
+        dv, rv_ = prog.class_value(de, 'DELETE'), prog.class_value(de, 'REJECT')
+        ok = dv is not None and rv_ is not None and norm(dv) == 'object()' and norm(rv_) == 'object()'
+        ck.ob(R4, f"{de.qual} :: DELETE/REJECT", ok, "two distinct object() sentinels" if ok else
+              "DELETE and REJECT are not two distinct object() sentinels", None,
+              f"{mod.path}:{de.node.lineno}")
+        dm = prog.cls(f"{FIL}:_dualmethod")
+        get = dm.methods.get('__get__')
+        ck.need(R4, get is not None, "_dualmethod.__get__ not found")
+        gg = ck.cfg(get.fid, 'M0')
+        inst, owner = get.node.args.args[1].arg, get.node.args.args[2].arg
+        fresh = nodes_where(gg, lambda n: isinstance(n.ast, ast.Assign) and norm(n.ast.targets[0]) == inst
+                            and norm(n.ast.value) == f"{owner}()")
+        ok = len(fresh) == 1 and gg.has_guard(fresh[0], f'{inst} is None', True)
+        ck.ob(R4, get.fid, ok, "a fresh instance is created only for access on the class" if ok else
+              "_dualmethod.__get__ does not create a fresh instance exactly when accessed on the class "
+              "(edit lists would be shared between filters)", get, get.node)
+        ao = de.methods.get('add_output')
+        ck.need(R4, ao is not None, "DataEdit.add_output not found")
+        ga = ck.cfg(ao.fid, 'M0')
+        ns = nodes_where(ga, lambda n: isinstance(n.ast, ast.Assign) and isinstance(n.ast.value, ast.Call)
+                         and norm(n.ast.value.func) == 'types.SimpleNamespace')
+        ok = len(ns) == 1 and not any(isinstance(t, ast.Attribute) for t in ns[0].ast.targets)
+        ck.ob(R4, f"{ao.fid} :: fresh namespace", ok,
+              "the source is stored in a fresh local namespace per call" if ok else
+              "add_output stores its source where a later add_output call overwrites it", ao, ao.node)
+        einit = de.methods.get('__init__')
+        own(ck, R4, '_editlist', {einit.fid: 'constructor'} if einit else {})
+
+    with ck.section('R16.4c'):
+        # ------------------------------------------------------------------ R16.4c
+        for mname, last in (('add', 'kwargs'), ('setdefault', 'data')):
+            m = de.methods.get(mname)
+            ck.need(R4c, m is not None, f"DataEdit.{mname} not found")
+            kwname = m.node.args.kwarg.arg if m.node.args.kwarg else None
+            verdict = None
+            for n in own_nodes(m.node):
+                if isinstance(n, ast.Lambda) and isinstance(n.body, ast.Dict):
+                    spreads = [norm(v) for k, v in zip(n.body.keys, n.body.values) if k is None]
+                    lp = n.args.args[0].arg
+                    if len(spreads) == 2 and set(spreads) == {lp, kwname} and len(n.body.keys) == 2:
+                        winner = spreads[-1]
+                        verdict = (winner == kwname) if last == 'kwargs' else (winner == lp)
+            if verdict is None:
+                # other idioms (dict(); update()) are outside the recognised spread idiom: the
+                # precedence is then decided by R16.4d alone (abstract evaluation of the edit)
+                ck.ob(R4c, m.fid, True, f"{mname}: not a two-spread dict display; the precedence on a "
+                      "key clash is decided by R16.4d (key-equality domain)", m, m.node)
                 continue
-            if d['kind'] in ('classmethod', 'method'):
-                m = ci.methods.get(d['name'])
-                ok = m is not None and (d['kind'] != 'classmethod' or
-                                        any('_dualmethod' in x or 'classmethod' in x for x in m.decorators))
+            ck.ob(R4c, m.fid, verdict,
+                  f"{mname}: the {'new items' if last == 'kwargs' else 'existing data'} win on a key "
+                  f"clash" if verdict else
+                  f"{mname}: precedence on a key clash is reversed (the spread order gives priority to "
+                  f"the {'data' if last == 'kwargs' else 'new items'})", m, m.node)
+
+    with ck.section('R16.4d'):
+        # ------------------------------------------------------------------ R16.4d
+        _dataedit_semantics(ck, de)
+
+    with ck.section('R16.5'):
+        # ------------------------------------------------------------------ R16.5
+        docs = directives(ck.repo, 'filters.rst')
+        ck.need(R5, docs, "docs/filters.rst not found or empty")
+        exported = _public_names(prog)
+        for d in docs:
+            where = f"{d['file']}:{d['line']}"
+            if d['owner'] is None:
+                ok = d['name'] in exported and (f"{FIL}:{d['name']}" in prog.classes or
+                                                f"{FIL}:{d['name']}" in prog.funcs or
+                                                prog.lookup(mod, d['name']) is not None)
+                ck.ob(R5, f"docs/filters.rst :: {d['kind']} {d['name']}", ok,
+                      f"edzed.{d['name']} exists and is exported" if ok else
+                      f"the documented filter `edzed.{d['name']}` does not exist in the public API "
+                      f"(blocklib/filters.py exports {sorted(_all_of(prog, mod))})", None, where)
             else:
-                ok = prog.class_value(ci, d['name']) is not None
-            ck.ob(R5, f"docs/filters.rst :: {d['owner']}.{d['name']}", ok,
-                  f"{d['owner']}.{d['name']} exists" if ok else
-                  f"documented {d['kind']} {d['owner']}.{d['name']} does not exist (or is not "
-                  f"callable on the class)", None, where)
+                ci = prog.classes.get(f"{FIL}:{d['owner']}")
+                if ci is None:
+                    ck.ob(R5, f"docs/filters.rst :: {d['owner']}.{d['name']}", False,
+                          f"owner class {d['owner']} not found", None, where)
+                    continue
+                if d['kind'] in ('classmethod', 'method'):
+                    m = ci.methods.get(d['name'])
+                    ok = m is not None and (d['kind'] != 'classmethod' or
+                                            any('_dualmethod' in x or 'classmethod' in x for x in m.decorators))
+                else:
+                    ok = prog.class_value(ci, d['name']) is not None
+                ck.ob(R5, f"docs/filters.rst :: {d['owner']}.{d['name']}", ok,
+                      f"{d['owner']}.{d['name']} exists" if ok else
+                      f"documented {d['kind']} {d['owner']}.{d['name']} does not exist (or is not "
+                      f"callable on the class)", None, where)
 
 
 def _all_of(prog, mod):
